@@ -389,6 +389,8 @@ pub async fn run_async(plan: &PlanA, opts: &ExecOpts) -> RunResult {
 
     let mut cstate: Vec<ClientState> = vec![ClientState::default(); plan.clients.len()];
     let mut holders: HashMap<Ipv4Addr, Holder> = HashMap::new();
+    /* a kill or a disk fault may cost the store a lease whose reply never left */
+    let mut store_may_have_lost = false;
     let mut ids_used: BTreeSet<Ipv4Addr> = BTreeSet::new();
     let mut handed: BTreeSet<u32> = BTreeSet::new();
     let mut refused_tail = 0usize; /* consecutive unanswered DISCOVERs at the end (drain shape) */
@@ -635,7 +637,12 @@ pub async fn run_async(plan: &PlanA, opts: &ExecOpts) -> RunResult {
         if disk_fault_now {
             *res.faults.entry("disk_error".into()).or_insert(0) += 1;
         }
+        if disk_fault_now || crashed {
+            store_may_have_lost = true;
+        }
 
+        /* who had been told what before this instant's replies */
+        let holders_before = holders.clone();
         /* "the lease recorded for it": when the server rewrites the record of a holder (a
          * renewal by the same client identity, possibly one whose reply could not be framed),
          * the current record is what counts */
@@ -985,6 +992,19 @@ pub async fn run_async(plan: &PlanA, opts: &ExecOpts) -> RunResult {
                         .filter_map(|r| r.address.parse::<Ipv4Addr>().ok().map(u32::from))
                         .filter(|a| p.contains(a))
                         .collect();
+                    /* the same from what the client was told on the wire: an address whose latest
+                     * OFFER/ACK went to this client and has not run out.  Where the store has
+                     * forgotten such a lease the rule above is blind, this one is not. */
+                    let told: BTreeSet<u32> = holders_before.iter().filter(|(a, h)| h.client == s.identity && h.expiry > now + 1 && p.contains(&u32::from(**a))).map(|(a, _)| u32::from(*a)).collect();
+                    if before.is_some() && held.is_empty() && !told.is_empty() && !store_may_have_lost && sid_ok && client.chaddr.len() >= 6 && refused_frames == 0 {
+                        res.probe("C09.store_forgot_a_lease_the_client_was_told");
+                        let y = mine.iter().filter_map(|r| r.msg.as_ref()).map(|m| u32::from(m.yiaddr)).next();
+                        if let Some(y) = y {
+                            if !told.contains(&y) && y != u32::from(lan.server_ip) {
+                                res.violate("C09", "C09.lease_told_to_the_client_not_reused", format!("client {} was told it has {:?} (unexpired, in the pool it is served from) but was given {}; the store no longer has those rows", hex(&s.identity), told.iter().map(|a| Ipv4Addr::from(*a)).collect::<Vec<_>>(), Ipv4Addr::from(y)), s.step);
+                            }
+                        }
+                    }
                     if !held_strict.is_empty() && sid_ok && client.chaddr.len() >= 6 && refused_frames == 0 {
                         let all_held: Vec<&Row> = before_rows.values().filter(|r| r.clientid.as_deref() == Some(&s.identity[..]) && r.expiry > now).collect();
                         if all_held.len() > 1 {
